@@ -8,7 +8,47 @@ from vlib import Infra
 PROP = "C18"
 
 
+def fnv32a(b):
+    h = 0x811c9dc5
+    for c in b:
+        h ^= c
+        h = (h * 0x01000193) & 0xffffffff
+    return h
+
+
+def name_in(shard, n, stem):
+    j = 0
+    while True:
+        name = "%s-%d" % (stem, j)
+        if fnv32a(name.encode()) % n == shard:
+            return name
+        j += 1
+
+
 def to_scenario(sid, hist, rng):
+    sc = to_scenario1(sid, hist, rng)
+    if sid % 4 == 3:
+        # SPARSE leadership: three shards, this server leads only some of them - not a prefix {0..k-1} - (leader elector scripted through the
+        # hook), the upstreams live on the shards it leads: their dead instances must be reclaimed all the same
+        n = 3
+        led = rng.choice([[1, 2], [2], [0, 2], [1]])
+        ren = {}
+        for k, u in enumerate(sc["upstreams"]):
+            ren[u["name"]] = name_in(led[k % len(led)], n, u["name"])
+            u["name"] = ren[u["name"]]
+        for st in sc["steps"]:
+            if st.get("up") in ren:
+                st["up"] = ren[st["up"]]
+        pre = []
+        for sh in led:
+            pre += [{"k": "el", "srv": "A", "op": "setself", "shard": sh}, {"k": "el", "srv": "A", "op": "cbstart", "shard": sh}]
+        for sh in set(range(n)) - set(led):
+            pre.append({"k": "el", "srv": "A", "op": "setother", "shard": sh})
+        sc.update({"shards": n, "elector": "scripted", "store": "local", "steps": pre + [{"k": "sleep", "ms": 1100}] + sc["steps"], "ren": ren})
+    return sc
+
+
+def to_scenario1(sid, hist, rng):
     ups = [{"name": "ua1", "type": "mif", "strategy": "globalAllocate", "max": 100, "burst": 0},
            {"name": "ua2", "type": "tb", "strategy": "globalAllocate", "max": 50, "burst": 100},
            {"name": "uc1", "type": "mif", "strategy": "globalCount", "max": 6, "burst": 0},
